@@ -44,8 +44,12 @@ SPEC = {
                    "Server (handleIndex over the embedded content, configuration fetched by the real "
                    "configstore.Download from a file:// proxy with two versions differing in what they approve) "
                    "answers 2-3 page requests /?config=<v1.0.0|v1.1.0|latest||empty>, the store unreachable for "
-                   "some; the per-file summaries are read from the HTML and judged under the configuration that "
-                   "request names. distinct = distinct case "
+                   "some; the per-file summaries and the Charts section (program, chart, 'not present in the "
+                   "telemetry config' flag) are read from the HTML and judged under the configuration that request "
+                   "names. 4% of the approval cases POST the uploader's report from 8 clients at the same moment to "
+                   "a freshly created configuration object and handler (the configuration extended by an unrelated "
+                   "counter with 120000 buckets on the report's programs); configurations list chart:bucket "
+                   "counters with and without a bucket list. distinct = distinct case "
                    "lines; every case compares all implementation verdicts with the model and evaluates "
                    "server_check / viewer_check on the implementation's verdicts; none is trivial"),
     ],
@@ -64,7 +68,10 @@ SPEC = {
                   "exactly the displayed names of the dropped counters and dropped stacks and never calls an approved "
                   "one excluded; its oracle accepts the model; "
                   "sequences: the answer of the upload handler to a request and the viewer page for a configuration "
-                  "version in any sequence of requests are those of that request alone. The models are tied to the code by differential execution against "
+                  "version in any sequence of requests are those of that request alone (any permutation of concurrent "
+                  "requests gives each its own answer); Charts: a chart is shown as present iff a configured counter "
+                  "belongs to it, never absent when it draws an approved plain counter; that the configured stacks "
+                  "are not consulted is exhibited as finding 20 (class viewer-chart-stack). The models are tied to the code by differential execution against "
                   "the real createReport, validate, handleUpload, summary and newCounterFile.",
     "level_note": "Trusted: Coq kernel+VM, extraction, OCaml glue, Go harness/generators, the two helper processes "
                   "(injected exporter in package view; init hook in package main of telemetrygodev). "
@@ -79,8 +86,10 @@ SPEC = {
         "time.Parse(\"2006-01-02\") behaves as Lib/Calendar.parse_date (sampled)",
         "rates are non-negative non-NaN float64 values; encoding/json round-trips reports and configurations",
         "html.EscapeString / html/template only escape text: the viewer's summary is classified by its fixed phrases",
+        "burst cases: the model judges the report under the case's configuration; the server is given that configuration plus an unrelated counter zzbig:{b0..b119999} (no item of the report belongs to it)",
+        "charts: chart_prefix_ok (no bucket introduces the chart separator ':' when the collapsed name has none before its brace) is a premise of the chart theorems; the generator's configurations satisfy it",
         "sequences: the upload handler decodes each body into a fresh report and the viewer resolves the configuration version on each request (code facts sampled by the suite); go mod download against the file:// proxy returns the stored config.json of the requested / newest version",
     ],
     "trusted_base": [],
-    "own_objects": ["theories/Props/C11.vo", "theories/Proofs/ApprovalSequences.vo", "theories/Proofs/ApprovalReports.vo", "theories/Proofs/ReportPrograms.vo", "theories/Proofs/ApprovalOracle.vo", "theories/Proofs/ApprovalFacts.vo", "theories/Model/Approval.vo"],
+    "own_objects": ["theories/Props/C11.vo", "theories/Proofs/ApprovalCharts.vo", "theories/Proofs/ApprovalSequences.vo", "theories/Proofs/ApprovalReports.vo", "theories/Proofs/ReportPrograms.vo", "theories/Proofs/ApprovalOracle.vo", "theories/Proofs/ApprovalFacts.vo", "theories/Model/Approval.vo"],
 }
